@@ -139,6 +139,7 @@ type Run struct {
 	restoreListenerCalls int
 	tlCounter            int
 	helperExp            map[string]string
+	helperSeen           map[string][]string
 	hist                 []histOp
 }
 
